@@ -501,6 +501,31 @@ func c14(c *Ctx) {
 			})
 			r.Check(okUpd, "C14.M2", name, "assigning "+astx.Str(as.Lhs[0])+" is followed by updateIrcPrefix", pos, "session.updateIrcPrefix() on every path to the return",
 				"the cached prefix is not refreshed after a nickname change: relayed lines carry the old nickname")
+			// where the old key is captured (old := NickToLower(<session>.Nick) before the assignment) there can be an old entry:
+			// it must be removed somewhere behind the assignment
+			{
+				capturesOld := false
+				for _, x := range g.Nodes() {
+					if x.ID == v || !g.DominatedBy(v, func(y *cfgx.Vertex) bool { return y.ID == x.ID }) {
+						continue
+					}
+					for _, call := range astx.Calls(x.Node, false) {
+						if fn := astx.Callee(info, call); fn != nil && fname(fn) == "NickToLower" && len(call.Args) == 1 && astx.Same(info, call.Args[0], as.Lhs[0]) {
+							capturesOld = true
+						}
+					}
+				}
+				if capturesOld {
+					nDel := 0
+					for _, w := range c.mapWritesIn(fi, fi.Body(), f.fNicks) {
+						if w.delete && g.DominatedBy(g.VertexOf(w.node), func(x *cfgx.Vertex) bool { return x.ID == v }) {
+							nDel++
+						}
+					}
+					r.Check(nDel >= 1, "C14.M2", name, "the old index entry is removed after a nickname change", pos, "delete(i.nicks, <old key>) behind the assignment",
+						"a session that already had a nickname gets a new one and the index keeps the old entry as well: the old nickname stays taken for ever and private messages to it reach this session")
+				}
+			}
 			// old key removal (only when there can be an old key: the nick had a value before)
 			for _, w := range c.mapWritesIn(fi, fi.Body(), f.fNicks) {
 				if !w.delete {
